@@ -18,6 +18,7 @@ import (
 	"errors"
 	"net/http"
 	"os"
+	"path"
 	"path/filepath"
 )
 
@@ -75,6 +76,9 @@ func newStaticFile(root string, filename string, encodingList []string, m *Modul
 	var err error
 	s := new(staticFile)
 	s.m = m
+
+	// clean filename as http.Dir does, so that all files are searched under root
+	filename = path.Clean("/" + filename)
 	s.extension = filepath.Ext(filename)
 
 	for _, encoding := range encodingList {
